@@ -592,7 +592,80 @@ def m6_header_map_two_tiers_refine_a_plain_map(S):
     S.prove(ctx, ob, "limit_memory_asks_for_the_configured_limit", [], bool([a for t, a, _ in calls if t == "front_n"] and all(a[0] == "IntV" for t, a, _ in calls if t == "front_n")), extra={"note": str(calls[:1])})
 
 
-OBLIGATIONS = [m1_skip_height, m2_ancestor_step, m3_header_view_codec, m4_locator, m5_fast_path_reads_one_snapshot, m6_header_map_two_tiers_refine_a_plain_map]
+def m7_inflight_timeout_releases_both_sides(S):
+    """In-flight table, the slow-block trace branch of `InflightBlocks::prune` (its `retain` closure, a separate MIR body, executed directly with the captured variables as
+    symbols): when a traced request has exceeded the low-time limit, the block's in-flight state is removed AND -- whenever that state existed and its peer is still tracked --
+    the block is removed from that peer's own `hashes` set, whether or not the peer is punished (so no peer ever lists a block that is not in flight from it); the peer is
+    punished iff punishing is on and adjustment is enabled; the trace entry is dropped iff it timed out, otherwise nothing is touched"""
+    ob = "C17.m7"
+    cl = [x for x in S.prog.funcs if re.search(r"::prune::\{closure#\d+\}$", x.name) and "sync/src/types/mod.rs" in x.name and len(x.params) == 3 and "BlockNumberAndHash" in x.params[1][1]]
+    if len(cl) != 1:
+        raise Inconclusive(f"prune trace closure: {len(cl)} candidates")
+    f = cl[0]
+    caps = {}
+    for name, place in f.debug.items():
+        m = re.match(r"\(\*\(\(\*_1\)\.(\d+): ", place)
+        if m:
+            caps[name] = int(m.group(1))
+    need = ["now", "timeout_limit", "states", "download_schedulers", "should_punish", "adjustment", "restart_number"]
+    if any(n not in caps for n in need):
+        raise Inconclusive(f"prune closure captures: {caps}")
+    ctx = S.ctx()
+    ctx.uninterpreted_unknown_calls = True
+    now = ctx.int("now", "u64"); limit = ctx.int("timeout_limit", "u64"); t0 = ctx.int("trace_time", "u64")
+    punish = ctx.bool("should_punish"); adj = ctx.bool("adjustment"); rn = ctx.int("restart_number", "u64")
+    has_state = ctx.bool("block_is_in_flight"); has_peer = ctx.bool("its_peer_is_tracked")
+    knum = ctx.int("key_number", "u64")
+    log = []
+
+    def nmv(ex, v):
+        v = deref(ex, v)
+        return getattr(v, "name", None) or type(v).__name__
+
+    def lg(tag, ret):
+        def h(ex, c, a, d):
+            log.append((tag, [nmv(ex, x) for x in a], list(ex.pc)))
+            return ret(ex, a, d)
+        return h
+    from mir2smt.srcinfo import struct_fields
+    sf = struct_fields("sync/src/types/mod.rs", "InflightState")
+    df = struct_fields("sync/src/types/mod.rs", "DownloadScheduler")
+    state = AggV(tuple(OpaqueV("state_" + n, "?") for n in sf), "InflightState")
+    sched = AggV(tuple(OpaqueV("sched_" + n, "?") for n in df), "DownloadScheduler")
+    ctx.env = list(E.LOGGING_OFF) + [
+        (E.rx(r"BTreeMap::<.*BlockNumberAndHash, .*InflightState>::remove"), lg("states_remove", lambda ex, a, d: mk_option(has_state.t, state, d))),
+        (E.rx(r"HashMap::<.*SessionId, .*DownloadScheduler.*>::get_mut"), lg("scheduler_of", lambda ex, a, d: mk_option(has_peer.t, ex.ctx.ref_to(sched), d))),
+        (E.rx(r"DownloadScheduler::punish$"), lg("punish", lambda ex, a, d: UNIT)),
+        (E.rx(r"HashSet::<.*BlockNumberAndHash.*>::remove"), lg("peer_hashes_remove", lambda ex, a, d: ex.ctx.bool("was_listed"))),
+    ]
+    vals = [None] * (max(caps.values()) + 1)
+    vals[caps["now"]] = ctx.ref_to(now); vals[caps["timeout_limit"]] = ctx.ref_to(limit)
+    vals[caps["states"]] = ctx.ref_to(OpaqueV("states", "BTreeMap")); vals[caps["download_schedulers"]] = ctx.ref_to(OpaqueV("schedulers", "HashMap"))
+    vals[caps["should_punish"]] = ctx.ref_to(punish); vals[caps["adjustment"]] = ctx.ref_to(adj)
+    rref = ctx.ref_to(rn)
+    vals[caps["restart_number"]] = rref
+    vals = [v if v is not None else ctx.ref_to(OpaqueV(f"cap{i}", "?")) for i, v in enumerate(vals)]
+    kf = struct_fields("util/types/src/core/extras.rs", "BlockNumberAndHash") if False else None
+    key = AggV((knum, OpaqueV("key_hash", "Byte32")), "BlockNumberAndHash")
+    ps = S.run(ctx, f, [ctx.ref_to(AggV(tuple(vals), "closure")), ctx.ref_to(key), ctx.ref_to(t0)])
+    pre = [T.le(T.add(limit.t, t0.t), (1 << 64) - 1)]
+    S.prove(ctx, ob, "no_panic", pre, T.not_(cond_of(panics(ps))))
+    timed_out = T.gt(now.t, T.add(limit.t, t0.t))
+
+    def when(tag, pred=lambda a: True):
+        return T.or_(*[T.and_(*pc) for t, a, pc in log if t == tag and pred(a)])
+    keep = merged(ps, as_bool)
+    S.prove(ctx, ob, "trace_entry_is_dropped_iff_it_timed_out", pre, T.iff(keep, T.not_(timed_out)))
+    S.prove(ctx, ob, "in_flight_state_is_removed_iff_timed_out", pre, T.iff(when("states_remove"), timed_out))
+    S.prove(ctx, ob, "state_removed_is_that_of_the_traced_block", [], bool(all(a[0] == "states" for t, a, _ in log if t == "states_remove")) and bool([1 for t, a, _ in log if t == "states_remove"]))
+    S.prove(ctx, ob, "block_leaves_the_peers_own_set_whenever_its_state_was_removed_and_the_peer_is_tracked", pre, T.iff(when("peer_hashes_remove"), T.and_(timed_out, has_state.t, has_peer.t)))
+    S.prove(ctx, ob, "peer_looked_up_is_the_one_recorded_in_the_state", [], bool(all(a[1] == "state_peer" for t, a, _ in log if t == "scheduler_of")), extra={"note": str([a for t, a, _ in log if t == "scheduler_of"][:2])})
+    S.prove(ctx, ob, "the_set_touched_is_that_peers_hashes", [], bool(all(a[0] == "sched_hashes" for t, a, _ in log if t == "peer_hashes_remove")), extra={"note": str([a for t, a, _ in log if t == "peer_hashes_remove"][:2])})
+    S.prove(ctx, ob, "peer_is_punished_iff_punishing_and_adjustment_are_on", pre, T.iff(when("punish"), T.and_(timed_out, has_state.t, has_peer.t, punish.t, adj.t)))
+    S.witness(ctx, ob, "reach_release_without_punishment", pre, T.and_(when("peer_hashes_remove"), T.not_(punish.t)))
+
+
+OBLIGATIONS = [m1_skip_height, m2_ancestor_step, m3_header_view_codec, m4_locator, m5_fast_path_reads_one_snapshot, m6_header_map_two_tiers_refine_a_plain_map, m7_inflight_timeout_releases_both_sides]
 
 ENGINE = "M"
 LEVEL = "other"
